@@ -2,6 +2,7 @@ package c14
 
 import (
 	"fmt"
+	"math"
 	"reflect"
 	"sort"
 	"strconv"
@@ -60,6 +61,30 @@ func canonV(b *strings.Builder, v reflect.Value) {
 			kvs = append(kvs, kv{kb.String(), it.Value()})
 		}
 		sort.Slice(kvs, func(i, j int) bool { return kvs[i].k < kvs[j].k })
+		// several keys with one rendering (NaN keys are all different keys): order them by their values
+		for i := 0; i < len(kvs); {
+			j := i + 1
+			for j < len(kvs) && kvs[j].k == kvs[i].k {
+				j++
+			}
+			if j-i > 1 {
+				run := kvs[i:j]
+				vs := make(map[int]string, len(run))
+				idx := make([]int, len(run))
+				for x := range run {
+					var vb strings.Builder
+					canonV(&vb, run[x].v)
+					vs[x], idx[x] = vb.String(), x
+				}
+				sort.SliceStable(idx, func(a, c int) bool { return vs[idx[a]] < vs[idx[c]] })
+				sorted := make([]kv, len(run))
+				for x, y := range idx {
+					sorted[x] = run[y]
+				}
+				copy(run, sorted)
+			}
+			i = j
+		}
 		b.WriteByte('{')
 		for i, e := range kvs {
 			if i > 0 {
@@ -262,10 +287,39 @@ func (d differ) dv(fp, full string, a, b reflect.Value) (string, string) {
 			K reflect.Value
 		}
 		var ks []kv
+		// entries whose key is not equal to itself (a NaN inside) cannot be looked up: they are compared as a
+		// multiset of (key rendering, value rendering) — see keyed_maps_test.go
+		var looseA, looseB []string
+		pair := func(k, v reflect.Value) string {
+			var pb strings.Builder
+			canonV(&pb, k)
+			pb.WriteByte(':')
+			canonV(&pb, v)
+			return pb.String()
+		}
 		for it.Next() {
+			if selfUnequal(a, it.Key()) {
+				looseA = append(looseA, pair(it.Key(), it.Value()))
+				continue
+			}
 			var kb strings.Builder
 			canonV(&kb, it.Key())
 			ks = append(ks, kv{kb.String(), it.Key()})
+		}
+		for itb := b.MapRange(); itb.Next(); {
+			if selfUnequal(b, itb.Key()) {
+				looseB = append(looseB, pair(itb.Key(), itb.Value()))
+			}
+		}
+		if len(looseA) != len(looseB) {
+			return bad()
+		}
+		sort.Strings(looseA)
+		sort.Strings(looseB)
+		for i := range looseA {
+			if looseA[i] != looseB[i] {
+				return bad()
+			}
 		}
 		sort.Slice(ks, func(i, j int) bool { return ks[i].k < ks[j].k })
 		for _, k := range ks {
@@ -321,7 +375,7 @@ func (d differ) dv(fp, full string, a, b reflect.Value) (string, string) {
 			return bad()
 		}
 	case reflect.Float32, reflect.Float64:
-		if a.Float() != b.Float() {
+		if a.Float() != b.Float() && !(math.IsNaN(a.Float()) && math.IsNaN(b.Float())) {
 			return bad()
 		}
 	case reflect.Bool:
